@@ -105,6 +105,8 @@ def build_metadata(schema):
                     name=f["name"],
                     ondelete=f.get("ondelete"),
                     onupdate=f.get("onupdate"),
+                    deferrable=f.get("deferrable"),
+                    initially=f.get("initially"),
                 )
             )
         tbl = sa.Table(t["name"], md, *items)
